@@ -31,7 +31,8 @@ pub enum ExecutionError {
     JoinNotSupported,
     FailOpenFile(String),
     CannotCreateArrayOfNullType,
-    DistinctRequiresColumn
+    DistinctRequiresColumn,
+    NumericOverflow
 }
 
 impl From<EvaluationError> for ExecutionError {
@@ -65,6 +66,7 @@ impl std::fmt::Display for ExecutionError {
             ExecutionError::FailOpenFile(err) => { write!(f, "Failed open file due to: {}", err) },
             ExecutionError::CannotCreateArrayOfNullType => { write!(f, "Cannot create array of null type") },
             ExecutionError::DistinctRequiresColumn => { write!(f, "COUNT(DISTINCT) requires a column") },
+            ExecutionError::NumericOverflow => { write!(f, "Numeric overflow") },
         }
     }
 }
